@@ -104,10 +104,43 @@ class Registry:
             self._busy = False
 
     def reobserve(self):
-        """yield (serial, birth, now) for every live registered object whose observation changed"""
+        """yield (serial, birth, now) for every live registered object whose observation changed.
+
+        What an object reports may depend on which OTHER object was queried last (state on shared node objects), and
+        a full observation of an object can itself repair such state before the deciding query is made.  Therefore
+        (i) a pairwise probe runs first: for every ordered pair (Y, X) of live objects (capped), query Y's probe,
+        then X's probe, and compare X's answer with its birth observation; (ii) the full observations are made in a
+        rotating order (oldest first, newest first, interleaved)."""
         self._busy = True
         try:
-            for ref, birth, serial in self.items:
+            self._round = getattr(self, '_round', 0) + 1
+            live = [(ref(), birth, serial) for ref, birth, serial in self.items]
+            live = [t for t in live if t[0] is not None]
+            probe = getattr(self, 'pair_probe', None)
+            if probe is not None and len(live) > 1:
+                key, fn = probe
+                sub = live[-6:] + live[:2] if len(live) > 8 else live
+                flagged = set()
+                for oy, _, sy in sub:
+                    for ox, bx, sx in sub:
+                        if ox is oy or sx in flagged or key not in bx:
+                            continue
+                        try:
+                            fn(oy)
+                            v = fn(ox)
+                        except Exception as e:  # noqa
+                            v = 'ERR:' + type(e).__name__
+                        if self.counter:
+                            self.counter('pair_probes')
+                        if v != bx[key]:
+                            flagged.add(sx)
+                            yield sx, bx, dict(bx, **{key: v, 'after_query_of_object': sy})
+            order = list(self.items)
+            if self._round % 3 == 1:
+                order.reverse()
+            elif self._round % 3 == 2:
+                order = order[::2] + order[1::2]
+            for ref, birth, serial in order:
                 obj = ref()
                 if obj is None:
                     continue
